@@ -406,6 +406,7 @@ impl Exec {
             c.allocs_at_wake = allocs;
             c.calls_in_cycle = 0;
             c.allocs_while_sweeping = 0;
+            c.credits = 0.0;
             if c.tracked {
                 self.cov.c09_tracked_cycles += 1;
             }
@@ -420,6 +421,19 @@ impl Exec {
             c.tainted = true;
         }
         let tracked = c.tracked && !c.tainted && !self.bk[ai].pacing_changed_in_cycle;
+        if ph1 != 0 && tracked {
+            // credited work: every object is marked, traced, kept, dropped and freed at most once
+            // per cycle, so the credits of a cycle never exceed rho x (objects that existed in it)
+            let c = &mut self.bk[ai].c09;
+            c.credits += (debt0 - debt1).max(0.0);
+            let r = rho(&pacing);
+            let n = c.h + (allocs - c.allocs_at_wake) as f64;
+            self.cov.c09_credit_checks += 1;
+            if r < 1.0 && c.credits > r * n + 1e-6 * (1.0 + n) {
+                let cr = c.credits;
+                self.violate("C09", "over-credited", format!("{what}: the running cycle has been credited {cr} units of work for {n} objects (H + allocations since wake-up); with every per-object path summing to at most rho = {r} it can be at most {}", r * n));
+            }
+        }
         if ph1 != 0 {
             if api == Api::CycleDebt && tracked {
                 let r = rho(&pacing);
@@ -560,6 +574,13 @@ impl Exec {
                 }
             }
         }
+        // C09 credit accounting: forward barriers / resurrect mark on the spot and are credited
+        if self.opts.c09 && ph0 != 0 && !st.pacing_changed && st.neg_adjust == 0.0 && st.pos_adjust == 0.0 && self.bk[ai].c09.tracked {
+            let earned = debt0 + st.allocs as f64 - debt1;
+            if earned > 0.0 && debt1 > 0.0 {
+                self.bk[ai].c09.credits += earned;
+            }
+        }
         // C09 sleep clause: debt must turn positive exactly when the allowance is exceeded
         if self.opts.c09 && ph1 == 0 {
             if let Some((at_end, w, _)) = self.bk[ai].c09.sleep {
@@ -604,7 +625,7 @@ impl Exec {
         // the marking call itself is an ordinary collection call
         let api = if forced { Api::FinishMarking } else { Api::MarkDebt };
         let (some, panicked) = self.collect_call(ai, api, "finalize:");
-        if !some || panicked || !self.violations.is_empty() {
+        if !some || panicked || self.fatal {
             return;
         }
         let Some(mut arena) = self.arenas[ai].take() else { return };
@@ -652,7 +673,7 @@ impl Exec {
             self.callback_post(ai, &arena, pre, &what, panicked, false, true);
         }
         self.arenas[ai] = Some(arena);
-        if !self.violations.is_empty() {
+        if self.fatal {
             return;
         }
         if then == Then::StartSweeping {
@@ -738,7 +759,7 @@ impl Exec {
             self.bk[ai].c09.sleep = None;
             self.cov.work_units += 1;
             let (_, panicked) = self.collect_call(ai, api, "work:");
-            if panicked || !self.violations.is_empty() {
+            if panicked || self.fatal {
                 return;
             }
         }
@@ -1129,11 +1150,11 @@ impl Exec {
             nontrivial = true;
         }
         let (_, p1) = self.collect_call(ai, Api::FinishCycle, "settle 1:");
-        if p1 || !self.violations.is_empty() {
+        if p1 || self.fatal {
             return;
         }
         let (_, p2) = self.collect_call(ai, Api::FinishCycle, "settle 2:");
-        if p2 || !self.violations.is_empty() {
+        if p2 || self.fatal {
             return;
         }
         self.cov.settles += 1;
@@ -1314,13 +1335,13 @@ impl Exec {
         for (i, st) in case.steps.iter().enumerate() {
             self.step_ix = i + 1;
             self.step(st);
-            if !self.violations.is_empty() || !self.internal_errors.is_empty() {
+            if self.fatal {
                 break;
             }
         }
         self.step_ix = case.steps.len() + 1;
         obs::arm_trace_fuse(0);
-        if !self.violations.is_empty() || !self.internal_errors.is_empty() {
+        if self.fatal {
             // The heap under test may be corrupt: do not touch it again. Leak the arenas and
             // handles of this case (the quarantined Gc blocks are released by end_case).
             for a in self.arenas.drain(..) {
@@ -1343,7 +1364,7 @@ impl Exec {
             }
         }
         let outstanding = obs::watched_outstanding();
-        if outstanding != 0 && self.violations.is_empty() {
+        if outstanding != 0 && !self.fatal {
             self.violate("C04", "blocks-outstanding", format!("{outstanding} Gc blocks were never returned to the allocator"));
         }
         obs::untracked(|| self.metrics.clear());
